@@ -113,6 +113,10 @@ def searches(tier):
 
 
 BLANKS = [0.0, None, -1.5]
+_SENTINEL = object()
+# the caller's blank value comes back as it is, whatever it is (a marker object, a float, text, nan)
+IBLANKS = (0, None, -7, -1.5, 'none', float('nan'), _SENTINEL)
+BLANKS = BLANKS + [7, 'none', _SENTINEL]
 
 
 def _call(R, f, s, **kw):
@@ -163,7 +167,7 @@ def run_case(case, R):
                 R.check(isinstance(v, float) and fnum.same_float(v, k[1]), 'str:real:' + k[0],
                         'fortran_float(%r) = %r, expected %r' % (s, v, k[1]))
             elif k[0] == 'blank':
-                R.check(v is bv or v == bv, 'str:real:blank',
+                R.check(v is bv or (v == bv and type(v) is type(bv)), 'str:real:blank',
                         'fortran_float(%r, blank_value=%r) = %r' % (s, bv, v))
             elif k[0] == 'nan':
                 R.check(isinstance(v, float) and math.isnan(v), 'str:real:nan',
@@ -177,14 +181,14 @@ def run_case(case, R):
         # ints
         ki = fnum.classify_int(s)
         R.label('intclass:' + ki[0])
-        for bv in (0, None, -7):
+        for bv in IBLANKS:
             v = _call(R, fff.fortran_int, s, blank_value=bv)
             if v == 'RAISED': continue
             if ki[0] in ('python', 'fortran'):
                 R.check(type(v) is int and v == ki[1], 'str:int:' + ki[0],
                         'fortran_int(%r) = %r, expected %r' % (s, v, ki[1]))
             elif ki[0] == 'blank':
-                R.check(v is bv or v == bv, 'str:int:blank',
+                R.check(v is bv or (v == bv and type(v) is type(bv)), 'str:int:blank',
                         'fortran_int(%r, blank_value=%r) = %r' % (s, bv, v))
             elif ki[0] == 'none':
                 R.check(v is None, 'str:int:none', 'fortran_int(%r) = %r, expected None' % (s, v))
